@@ -155,6 +155,51 @@ pub fn run(tier: Tier) -> ! {
         families.push(json!({"family": "class pairs: every ordered pair (X,Y) of a menu of near-identical one-character classes as patterns (X)+, (Y)+, (X)(Y)", "menu": menu, "pairs": pairs.len(), "inputs": insc.len(), "exhaustive": true}));
     }
 
+    // long inputs: corpora on their input files, synthetic inputs beyond 2^8 / 2^16 bytes
+    {
+        let cases = crate::longscan::long_cases(false);
+        let mut t2 = tables.clone();
+        let mut keys = vec![];
+        for c in &cases {
+            keys.extend(c.1.atom_keys());
+        }
+        keys.sort();
+        keys.dedup();
+        if let Err(e) = bridge::tabulate_atoms(&keys, &mut t2) {
+            refsem::evidence::machinery(&format!("cannot tabulate atoms of the corpora: {e}"));
+        }
+        let accs = par_for(cases.len(), 1, || Acc { samples: Samples::new(1), ..Default::default() }, |acc, i| {
+            let (name, cfg, input) = &cases[i];
+            acc.cfgs += 1;
+            acc.scans += 1;
+            let lr = match crate::longscan::LongRef::new(cfg) {
+                Ok(l) => l,
+                Err(_) => return,
+            };
+            let toks = match bridge::catch(|| cfg.build_uncached().map(|sc| bridge::scan_all(&sc, input))) {
+                Ok(Ok(Ok(t))) => t,
+                other => {
+                    acc.viol.add("", || Violation { key: String::new(), summary: format!("{name}: build or scan failed: {:?}", other.map(|r| r.map(|x| x.map(|v| v.len())))), replay: json!({"case": name, "configuration": cfg.to_json(), "input_bytes": input.len()}) });
+                    return;
+                }
+            };
+            let (n, competed, d) = lr.compare_stream(input, &toks, &t2);
+            acc.stats.tokens += n;
+            acc.stats.competed += competed;
+            if n > 0 {
+                acc.nontrivial += 1;
+            }
+            if let Some(d) = d {
+                acc.viol.add("", || Violation { key: String::new(), summary: format!("{name}: {d}"), replay: json!({"case": name, "configuration": cfg.to_json(), "input_bytes": input.len(), "input_prefix": input.chars().take(60).collect::<String>(), "disagreement": d, "calls": ["build_uncached()", "find_iter(input) to exhaustion"]}) });
+            }
+            acc.samples.push(|| json!({"family": "long inputs", "case": name, "input_bytes": input.len(), "tokens": n}));
+        });
+        for a in accs {
+            merge(&mut total, a);
+        }
+        families.push(json!({"family": "long inputs: lookahead-free corpora on their input files (parol also on benches/input_1.par), synthetic inputs with tokens/offsets beyond 255 and 65 535 bytes, 20 000 mode switches", "cases": cases.iter().map(|c| c.0.clone()).collect::<Vec<_>>()}));
+    }
+
     // add_patterns: token type = index
     {
         let g2 = refsem::families::g_upto(2);
